@@ -255,6 +255,13 @@ def triGrid (n1 n2 : Nat) : List (Rat × Rat) := (baryLattice n1 n2).filter fun 
 /-- `Triangle.sample_grid(d=…)` after the repair: the surplus over `n = ceil(d·area)` is cut off -/
 def triDensityGrid (n n1 n2 : Nat) : List (Rat × Rat) := (triGrid n1 n2).take n
 
+section triExact
+variable {K : Type} [Add K] [Sub K] [LE K] [DecidableLE K] [OfNat K 1]
+/-- the EXACT scheme for `Triangle.sample_random_uniform(d=…)` (the statement allows it next to the coded rejection scheme):
+    `n = ceil(d·area)` uniform barycentric pairs, those with `u + v ≥ 1` mirrored at (½,½) (`triMirror` of GeomSample.lean) -/
+def triDensityMirror (tape : List (K × K)) : List (K × K) := tape.map fun p => triMirror p.1 p.2
+end triExact
+
 /-- … and those strictly inside (the diagonal ones are at the mercy of float rounding in the code) -/
 def triGridStrict (n1 n2 : Nat) : List (Rat × Rat) := (baryLattice n1 n2).filter fun p => decide (p.1 + p.2 < 1)
 
